@@ -1082,6 +1082,7 @@ package ackhandler
 //@   ensures [bytes-in-flight-never-grows] 0 <= h.bytesInFlight && h.bytesInFlight <= old(h.bytesInFlight)
 //@   ensures [space-kept] h.initialPackets == old(h.initialPackets) && h.handshakePackets == old(h.handshakePackets) && h.appDataPackets == old(h.appDataPackets)
 //@   ensures [amplification-accounting-untouched] h.bytesSent == old(h.bytesSent) && h.bytesReceived == old(h.bytesReceived) && h.peerAddressValidated == old(h.peerAddressValidated)
+//@   ensures [the-whole-history-is-always-examined] called("(*sentPacketHistory).Packets") == 1
 //@   unclaimed pre:(*sentPacketHandler).detectLostPackets$1@7.0 needs the sum-of-lengths invariant over the history (see DropPackets)
 //@   unclaimed pre:(*sentPacketHandler).detectLostPackets$1@7.1 bounds of the lost-packet tracker and of the packet's encryption level: representation invariants assumed at each iteration
 //@   unclaimed pre:(*sentPacketHandler).detectLostPackets$1@7.2 the history invariant is assumed at each iteration (the loop body is verified against it)
@@ -1163,10 +1164,15 @@ package ackhandler
 //@   let unsent = ack.AckRanges[0].Largest > sp.largestSent
 //@   ensures [ack-for-an-unsent-packet-is-a-protocol-violation] implies(unsent, h.peerCompletedAddressValidation == old(h.peerCompletedAddressValidation) && called("(*sentPacketHandler).setLossDetectionTimer") == 0 && h.bytesInFlight == old(h.bytesInFlight))
 //@   ensures [client-address-validation-completed-by-protected-ack] implies(!unsent, h.peerCompletedAddressValidation == (old(h.peerCompletedAddressValidation) || (h.perspective == protocol.PerspectiveClient && (encLevel == 2 || encLevel == 4))))
+//@   ensures [every-acceptable-ack-is-matched-against-the-history] implies(!unsent, cutpoint)
 //@   ensures [timer-rearmed-when-validation-completes] implies(!unsent && h.perspective == protocol.PerspectiveClient && !old(h.peerCompletedAddressValidation) && (encLevel == 2 || encLevel == 4), called("(*sentPacketHandler).setLossDetectionTimer") == 1)
 //@   modifies h.peerCompletedAddressValidation, h.alarm.Time, h.alarm.TimerType, h.alarm.EncryptionLevel
 
 //@ func IsFrameTypeAckEliciting
 //@   props C07
 //@   ensures [all-but-ack-and-close] iff(result, t != 2 && t != 3 && t != 28 && t != 29)
+//@   modifies nothing
+
+//@ func NewUAckHandler
+//@   trusted constructor wrapper (NewSentPacketHandler with the spec's initial packet number); only its frame is used by newUClientConnection
 //@   modifies nothing
